@@ -1,8 +1,238 @@
-import Quanto.Spec.C02
+/-
+Property C02 — 2/4-bit affine quantization of one group with the (repaired) `MaxOptimizer`:
+range extension, step bound, zero-point range, code range, half-step error bound,
+idempotence, and the defects of the original optimizer.
+
+Setting: `F` a working format, `bits ∈ {2, 4}`, `N = 2^bits - 1`; `lo ≤ 0 ≤ hi` the extrema of
+the group after the range has been extended to contain zero;
+`s = maxOptScale F bits (.fin lo) (.fin hi)`, `z = maxOptZero F (.fin lo) s`.
+-/
+import Proofs.C02.Lemmas
+
 namespace Quanto
 
-/-- placeholder until the affine proofs land -/
-theorem C02_wrapInt8_id (n : Int) (h1 : -128 ≤ n) (h2 : n ≤ 127) : wrapInt8 n = n := by
-  unfold wrapInt8; omega
+/-- T1: extending the range of a finite group to contain zero (`ratMin`/`ratMax` are the
+import-free `min`/`max` of `Quanto.Spec.C02`). -/
+theorem C02_extend_range (a b : Rat) :
+    extendRange true (.fin a) (.fin b) = (.fin (ratMin a 0), .fin (ratMax b 0)) :=
+  extendRange_fin a b
+
+/-- T1 with Mathlib's `min` / `max`. -/
+theorem C02_extend_range_minmax (a b : Rat) :
+    extendRange true (.fin a) (.fin b) = (.fin (min a 0), .fin (max b 0)) := by
+  rw [extendRange_fin, ratMin_eq_min, ratMax_eq_max]
+
+/-- T2: a finite step is non-negative and at most `(hi-lo)/N·(1+3u) + 2η`. -/
+theorem C02_scale_bound (F : Fmt) (hF : WorkFmt F) (bits : Nat) (hb : bits = 2 ∨ bits = 4)
+    (lo hi sq : Rat) (hlo : lo ≤ 0) (hhi : 0 ≤ hi)
+    (hs : maxOptScale F bits (.fin lo) (.fin hi) = .fin sq) :
+    0 ≤ sq ∧ sq ≤ stepBoundC02 F bits lo hi := by
+  obtain ⟨h0, h1, -, -⟩ := scale_facts F hF bits hb lo hi sq hlo hhi hs
+  exact ⟨h0, h1⟩
+
+/-- T3: the scale of an all-zero group is (finite and) exactly zero. -/
+theorem C02_scale_zero_group (F : Fmt) (hF : WorkFmt F) (bits : Nat) (hb : bits = 2 ∨ bits = 4) :
+    maxOptScale F bits (.fin 0) (.fin 0) = .fin 0 := by
+  have hN : nSteps bits ≠ 0 := by rcases nSteps_cases hb with h | h <;> rw [h] <;> norm_num
+  rw [maxOptScale_eq]
+  norm_num only [add_zero, neg_zero]
+  rw [fl_zero F hF, div_fin F _ _ hN, zero_div, fl_zero F hF]
+
+/-- T3 (requested form; only this direction holds, see
+`C02_counterexample_scale_underflow`). -/
+theorem C02_scale_zero_iff (F : Fmt) (hF : WorkFmt F) (bits : Nat) (hb : bits = 2 ∨ bits = 4)
+    (lo hi sq : Rat) (hs : maxOptScale F bits (.fin lo) (.fin hi) = .fin sq)
+    (hlo : lo = 0) (hhi : hi = 0) : sq = 0 := by
+  subst hlo hhi
+  rw [C02_scale_zero_group F hF bits hb] at hs
+  exact (FV.fin.inj hs).symm
+
+/-- T3: with a zero scale every code dequantizes to exactly 0, whatever the zero-point. -/
+theorem C02_zero_group_deq (F : Fmt) (hF : WorkFmt F) :
+    ∀ (c : Nat) (z : Int), affDeq F c (.fin 0) z = .fin 0 := by
+  intro c z
+  show F.fl (.fin (0 * _)) = _
+  rw [zero_mul]; exact fl_zero F hF
+
+/-- T4 (universal part): for a positive scale the zero-point is the rounded quotient
+`round(fl(-lo/s))` itself — the int8 conversion does not wrap — and lies in `[0, 3·2^bits/2]`. -/
+theorem C02_zeropoint_nowrap (F : Fmt) (hF : WorkFmt F) (bits : Nat) (hb : bits = 2 ∨ bits = 4)
+    (lo hi sq : Rat) (hlo : lo ≤ 0) (hhi : 0 ≤ hi)
+    (hs : maxOptScale F bits (.fin lo) (.fin hi) = .fin sq) (hpos : 0 < sq) :
+    ∃ zf, F.div (.fin (-lo)) (.fin sq) = .fin zf ∧
+      maxOptZero F (.fin lo) (.fin sq) = rhe zf ∧
+      0 ≤ maxOptZero F (.fin lo) (.fin sq) ∧ 2 * maxOptZero F (.fin lo) (.fin sq) ≤ 3 * 2 ^ bits := by
+  obtain ⟨zf, hfin, -, hz, h0, h1⟩ := zero_facts F hF bits hb lo hi sq hlo hhi hs hpos
+  refine ⟨zf, by rw [div_fin F _ _ hpos.ne', hfin], hz, by rw [hz]; exact h0, ?_⟩
+  rw [hz]; unfold nStepsI at h1; omega
+
+/-- T4 (as requested, with the extra hypothesis that the scale is a normal number of `F`): the
+zero-point lies in `[0, 2^bits - 1]`.  Without `hnorm` the upper bound is false, see
+`C02_counterexample_zeropoint_subnormal`. -/
+theorem C02_zeropoint_range_partial (F : Fmt) (hF : WorkFmt F) (bits : Nat)
+    (hb : bits = 2 ∨ bits = 4) (lo hi sq : Rat) (hlo : lo ≤ 0) (hhi : 0 ≤ hi)
+    (hs : maxOptScale F bits (.fin lo) (.fin hi) = .fin sq) (hnorm : pow2 F.emin ≤ sq) :
+    0 ≤ maxOptZero F (.fin lo) (.fin sq) ∧ maxOptZero F (.fin lo) (.fin sq) ≤ 2 ^ bits - 1 := by
+  have hpos : 0 < sq := lt_of_lt_of_le (pow2_pos _) hnorm
+  obtain ⟨zf, -, -, hz, h0, -⟩ := zero_facts F hF bits hb lo hi sq hlo hhi hs hpos
+  exact ⟨by rw [hz]; exact h0, zero_le_normal F hF bits hb lo hi sq hlo hhi hs hnorm⟩
+
+/-- T5: the stored code always fits in `bits` bits (all inputs, including NaN / inf). -/
+theorem C02_code_range (F : Fmt) (bits : Nat) (x s : FV) (z : Int) :
+    affCode F bits x s z < 2 ^ bits :=
+  toUint8_clamp_lt bits _
+
+/-- T6: every element of the group is reproduced within half a step plus `epsC02`
+(for every finite scale: positive, or zero after underflow). -/
+theorem C02_bound (F : Fmt) (hF : WorkFmt F) (bits : Nat) (hb : bits = 2 ∨ bits = 4)
+    (lo hi sq x yq : Rat) (hlo : lo ≤ 0) (hhi : 0 ≤ hi)
+    (hs : maxOptScale F bits (.fin lo) (.fin hi) = .fin sq)
+    (hx1 : lo ≤ x) (hx2 : x ≤ hi)
+    (hy : affDeq F (affCode F bits (.fin x) (.fin sq) (maxOptZero F (.fin lo) (.fin sq))) (.fin sq)
+      (maxOptZero F (.fin lo) (.fin sq)) = .fin yq) :
+    |yq - x| ≤ sq / 2 + epsC02 F bits x sq := by
+  unfold epsC02; rw [rabs_eq]
+  obtain ⟨h0, -, -, -⟩ := scale_facts F hF bits hb lo hi sq hlo hhi hs
+  rcases eq_or_lt_of_le h0 with h | hpos
+  · subst h
+    have := bound_zero_scale F hF bits hb lo hi x yq hlo hhi hs hx1 hx2 _ _ hy
+    linarith
+  · exact bound_main F hF bits hb lo hi sq x yq hlo hhi hs hpos hx1 hx2 hy
+
+/-- T2 + T6: the executable element predicate of `Quanto.Spec.C02` accepts every element of a
+group with a finite scale and a finite dequantized value. -/
+theorem C02_spec_elem_ok (F : Fmt) (hF : WorkFmt F) (bits : Nat) (hb : bits = 2 ∨ bits = 4)
+    (lo hi sq x yq : Rat) (hlo : lo ≤ 0) (hhi : 0 ≤ hi)
+    (hs : maxOptScale F bits (.fin lo) (.fin hi) = .fin sq)
+    (hx1 : lo ≤ x) (hx2 : x ≤ hi)
+    (hy : affDeq F (affCode F bits (.fin x) (.fin sq) (maxOptZero F (.fin lo) (.fin sq))) (.fin sq)
+      (maxOptZero F (.fin lo) (.fin sq)) = .fin yq) :
+    specC02Elem F bits x lo hi (.fin sq)
+      (affCode F bits (.fin x) (.fin sq) (maxOptZero F (.fin lo) (.fin sq)))
+      (maxOptZero F (.fin lo) (.fin sq)) (.fin yq) = .ok := by
+  obtain ⟨h0, h1⟩ := C02_scale_bound F hF bits hb lo hi sq hlo hhi hs
+  have h2 := C02_bound F hF bits hb lo hi sq x yq hlo hhi hs hx1 hx2 hy
+  unfold specC02Elem
+  simp only [if_neg (not_lt.mpr h0), if_neg (not_lt.mpr h1)]
+  rw [rabs_eq, if_pos h2]
+
+/-- T7: re-quantizing a dequantized value with the group's scale and zero-point gives the code
+back — in every working format (float32, float16, bfloat16), for the code of any input `x`
+(finite or not), without any normality assumption on the scale. -/
+theorem C02_idempotent (F : Fmt) (hF : WorkFmt F) (bits : Nat) (hb : bits = 2 ∨ bits = 4)
+    (lo hi sq : Rat) (hlo : lo ≤ 0) (hhi : 0 ≤ hi)
+    (hs : maxOptScale F bits (.fin lo) (.fin hi) = .fin sq) (hpos : 0 < sq) (x : FV) (yq : Rat)
+    (hy : affDeq F (affCode F bits x (.fin sq) (maxOptZero F (.fin lo) (.fin sq))) (.fin sq)
+      (maxOptZero F (.fin lo) (.fin sq)) = .fin yq) :
+    affCode F bits (.fin yq) (.fin sq) (maxOptZero F (.fin lo) (.fin sq)) =
+      affCode F bits x (.fin sq) (maxOptZero F (.fin lo) (.fin sq)) := by
+  obtain ⟨zf, -, -, hz, h0, h1⟩ := zero_facts F hF bits hb lo hi sq hlo hhi hs hpos
+  obtain ⟨-, -, -, hrep⟩ := scale_facts F hF bits hb lo hi sq hlo hhi hs
+  have hu := (u_eta_work F hF).1
+  have he := eta_le_milli F hF
+  have hz24 : rhe zf ≤ 24 := by
+    rcases nStepsI_cases hb with h | h <;> rw [h] at h1 <;> omega
+  rw [hz] at hy ⊢
+  exact idem_core F hF bits hb sq hrep hpos _ 24 h0 hz24 (by norm_num) (by norm_num)
+    (by push_cast; linarith) _ (C02_code_range F bits x _ _) yq hy
+
+/-- T7 (general form, float32 / float16): idempotence for any representable positive scale,
+any zero-point in `[0, 127]` and any `bits`-bit code. -/
+theorem C02_idempotent_code (F : Fmt) (hF' : F = f32 ∨ F = f16) (bits : Nat)
+    (hb : bits = 2 ∨ bits = 4) (sq : Rat) (hrep : F.Rep sq) (hpos : 0 < sq) (z : Int)
+    (hz0 : 0 ≤ z) (hz1 : z ≤ 127) (c : Nat) (hc : c < 2 ^ bits) (yq : Rat)
+    (hy : affDeq F c (.fin sq) z = .fin yq) : affCode F bits (.fin yq) (.fin sq) z = c := by
+  have hF : WorkFmt F := by rcases hF' with rfl | rfl <;> simp [WorkFmt]
+  obtain ⟨hu, he⟩ := u_eta_small F hF'
+  exact idem_core F hF bits hb sq hrep hpos z 127 hz0 hz1 (by norm_num) (by norm_num)
+    (by push_cast; linarith) c hc yq hy
+
+/-! ### T8: defects and boundary cases, by kernel evaluation -/
+
+/-- T8a (defect of the original optimizer, `extendRange false`): on the float32 group
+`[10, 10.03125]` with 4 bits the unwrapped zero-point is -4800, the stored int8 zero-point is
+its wrap-around 64, and the element 10 dequantizes to about -0.102. -/
+theorem C02_counterexample_unextended_range :
+    extendRange false (.fin 10) (.fin (321 / 32)) = (.fin 10, .fin (321 / 32)) ∧
+    maxOptScale f32 4 (.fin 10) (.fin (321 / 32)) = .fin (8947849 / 4294967296) ∧
+    (f32.div (FV.fin (-10)) (.fin (8947849 / 4294967296))).round = .fin (-4800) ∧
+    maxOptZero f32 (.fin 10) (.fin (8947849 / 4294967296)) = 64 ∧
+    affDeq f32 (affCode f32 4 (.fin 10) (.fin (8947849 / 4294967296)) 64)
+      (.fin (8947849 / 4294967296)) 64 = .fin (-6850697 / 67108864) := by
+  decide +kernel
+
+/-- T8b: a float16 group whose width is not representable has an infinite scale. -/
+theorem C02_counterexample_range_overflow :
+    maxOptScale f16 4 (.fin (-60000)) (.fin 60000) = .pinf := by
+  decide +kernel
+
+/-- T8c (defect of the original optimizer): a constant group gets a zero scale, hence (by
+`C02_zero_group_deq`) dequantizes to 0 — error 3 here. -/
+theorem C02_counterexample_constant_group_unextended :
+    extendRange false (.fin 3) (.fin 3) = (.fin 3, .fin 3) ∧
+    maxOptScale f32 4 (.fin 3) (.fin 3) = .fin 0 := by
+  decide +kernel
+
+/-- the converse of T3 fails: a non-zero group can have a zero scale (underflow). -/
+theorem C02_counterexample_scale_underflow :
+    maxOptScale f32 4 (.fin 0) (.fin (pow2 (-149))) = .fin 0 := by
+  decide +kernel
+
+/-- T4 without the normality hypothesis is false: with the subnormal range `[-22·2^-149, 0]`
+the scale is `2^-149` and the zero-point is 22 > 15. -/
+theorem C02_counterexample_zeropoint_subnormal :
+    maxOptScale f32 4 (.fin (-22 * pow2 (-149))) (.fin 0) = .fin (pow2 (-149)) ∧
+    maxOptZero f32 (.fin (-22 * pow2 (-149))) (.fin (pow2 (-149))) = 22 := by
+  decide +kernel
+
+/-! ### non-vacuity: concrete instances satisfy the hypotheses -/
+
+/-- T2, T4 and T6 at float16, 4 bits, group `[-1, 2]`, `x = 1/2`:
+scale 819/4096, zero-point 5, code 7, dequantized 819/2048. -/
+example : (0 : Rat) ≤ 819 / 4096 ∧ (819 / 4096 : Rat) ≤ stepBoundC02 f16 4 (-1) 2 :=
+  C02_scale_bound f16 (by simp [WorkFmt]) 4 (Or.inr rfl) (-1) 2 (819 / 4096) (by norm_num)
+    (by norm_num) (by decide +kernel)
+
+example : maxOptZero f16 (.fin (-1)) (.fin (819 / 4096)) = 5 := by decide +kernel
+
+example : 0 ≤ maxOptZero f16 (.fin (-1)) (.fin (819 / 4096)) ∧
+    maxOptZero f16 (.fin (-1)) (.fin (819 / 4096)) ≤ 2 ^ 4 - 1 :=
+  C02_zeropoint_range_partial f16 (by simp [WorkFmt]) 4 (Or.inr rfl) (-1) 2 (819 / 4096)
+    (by norm_num) (by norm_num) (by decide +kernel) (by norm_num [f16, pow2_eq])
+
+example : |(819 / 2048 : Rat) - 1 / 2| ≤ 819 / 4096 / 2 + epsC02 f16 4 (1 / 2) (819 / 4096) :=
+  C02_bound f16 (by simp [WorkFmt]) 4 (Or.inr rfl) (-1) 2 (819 / 4096) (1 / 2) (819 / 2048)
+    (by norm_num) (by norm_num) (by decide +kernel) (by norm_num) (by norm_num)
+    (by decide +kernel)
+
+/-- T7 at the same instance: 819/2048 is re-quantized to the code 7 of `x = 1/2`. -/
+example : affCode f16 4 (.fin (819 / 2048)) (.fin (819 / 4096))
+      (maxOptZero f16 (.fin (-1)) (.fin (819 / 4096))) =
+    affCode f16 4 (.fin (1 / 2)) (.fin (819 / 4096))
+      (maxOptZero f16 (.fin (-1)) (.fin (819 / 4096))) :=
+  C02_idempotent f16 (by simp [WorkFmt]) 4 (Or.inr rfl) (-1) 2 (819 / 4096) (by norm_num)
+    (by norm_num) (by decide +kernel) (by norm_num) (.fin (1 / 2)) (819 / 2048) (by decide +kernel)
+
+example : affCode f16 4 (.fin (1 / 2)) (.fin (819 / 4096)) 5 = 7 := by decide +kernel
+
+/-- T6 and T7 at bfloat16, 2 bits, group `[-3, 1/2]`, `x = -3`:
+scale 149/128, zero-point 3, code 0, dequantized -7/2. -/
+example : |(-7 / 2 : Rat) - (-3)| ≤ 149 / 128 / 2 + epsC02 bf16 2 (-3) (149 / 128) :=
+  C02_bound bf16 (by simp [WorkFmt]) 2 (Or.inl rfl) (-3) (1 / 2) (149 / 128) (-3) (-7 / 2)
+    (by norm_num) (by norm_num) (by decide +kernel) (by norm_num) (by norm_num)
+    (by decide +kernel)
+
+example : affCode bf16 2 (.fin (-7 / 2)) (.fin (149 / 128))
+      (maxOptZero bf16 (.fin (-3)) (.fin (149 / 128))) =
+    affCode bf16 2 (.fin (-3)) (.fin (149 / 128))
+      (maxOptZero bf16 (.fin (-3)) (.fin (149 / 128))) :=
+  C02_idempotent bf16 (by simp [WorkFmt]) 2 (Or.inl rfl) (-3) (1 / 2) (149 / 128) (by norm_num)
+    (by norm_num) (by decide +kernel) (by norm_num) (.fin (-3)) (-7 / 2) (by decide +kernel)
+
+/-- T7 (general form) at float32: scale 1/4, zero-point 100, code 9. -/
+example : affCode f32 4 (.fin (-91 / 4)) (.fin (1 / 4)) 100 = 9 :=
+  C02_idempotent_code f32 (Or.inl rfl) 4 (Or.inr rfl) (1 / 4)
+    ⟨1, -2, by norm_num, by norm_num [f32], by norm_num [f32]⟩ (by norm_num) 100 (by omega)
+    (by omega) 9 (by norm_num) (-91 / 4) (by decide +kernel)
 
 end Quanto
